@@ -22,7 +22,8 @@ RULE = ("generated two-module programs (C01's generator: every program has set a
         '; programs also carry dictionaries built from sets, a memento function as default value, a symbol bound at the end of the module under the name of a missing attribute, helpers defined twice'
         '; rounds 7-9: module-level modifier clones next to a third symbol, a builtin-named plain function as the only helper of the function registered last (asked first), a helpers-first definition order, a functools.partial object around a plain helper in half of the programs'
         '; rounds 10-11: a plug-in module filling a tracked list in place (imported first or last), memento functions defined twice with the old name kept (eight hash seeds for those)'
-        '; round 12: equal numbers of different types (1, 1.0, True, 0, 0.0) read by different functions')
+        '; round 12: equal numbers of different types (1, 1.0, True, 0, 0.0) read by different functions'
+        '; round 15: module-level clones made right below their function and above a plain helper; every third interpreter registers one more memento function before the first query')
 ASSUMPTIONS = ["each interpreter is a fresh process of /venv/bin/python importing the tree under test"]
 TIMEOUT = 900
 WORKERS = {"quick": 12, "thorough": 16}
